@@ -36,6 +36,10 @@ type c07Route struct {
 	ipre, ipost string
 	// a light route runs on every input kind except the bulk ones (quick tier: one eighth of the byte pairs, by seed)
 	light bool
+	// operand routes (c07_operands.go): how the text that reaches the filter follows from the value ("" = the value itself),
+	// and whether the route takes strings only
+	conv    string
+	strOnly bool
 }
 
 // want: the whole output of the route for a value whose escaped form is `escaped` (escaping is byte-wise, so the
@@ -483,6 +487,7 @@ func runC07(e *Env) error {
 		"multi-byte and invalid UTF-8, 1 MiB strings, every Unicode scalar value (quick: 1 in 16 blocks of 4096 plus the boundaries; thorough: all 1 112 064), non-string values against html.EscapeString(toString(v)); " +
 		"apply-body shapes (22 light routes × two names: the body is exactly one print tag whose value is a macro call — local, _self, imported, from-imported, aliased — or parent(), a compound expression, exactly one include / block / if / for / nested apply, the same between trimmed whitespace or next to text; expected escape(text the body adds) + escReg(v)); " +
 		"macro-body text interpolated by the macro call (templates assembled from nodes: NewMacroNode + NewTextNode carrying {{ name|e }} placeholders, called by name, through import and from-import): 2 736 spellings of the placeholder (six kinds of blank in each of the four places, both names, the :argument form) against escReg(v), strings and non-string values; " +
+		"operand routes (c07_operands.go; 466 engines, each rendering every regression string, single byte, random string, one batch of code points and every non-string value in turn): the value below the escaped expression — hash value / bare key / computed key, hash among literals, hash as base or argument of merge / default, hash in array, array in hash, hash in cycle() / ternary / ~, array item, ternary branch, filter and function argument, json_encode of hash / array / value (expected text by encoding/json), a condition on the value — × print, chain, apply, macro, imported macro, include × two names, plus set / for / if / macro argument / include-with holding the hash and the filter inside the literal; expected literal text + escReg(text reaching the filter), a mismatch is re-rendered on a fresh engine (stale vs wrong); " +
 		"the nil-environment fallback (two routes × two names) against Escape.escFallback on the same single bytes, pairs, code points and random strings. " +
 		"non-trivial = input contains one of < > & \" ' or is not valid UTF-8; distinct by input"
 	// another engine of the same process replaces e / escape / raw by filters of its own BEFORE the engines under
@@ -534,6 +539,15 @@ func runC07(e *Env) error {
 	if nodes != nil {
 		c07NodeFailClosed(e)
 	}
+	// the value below the escaped expression (hash value / key, array item, filter and function argument, branch …) in
+	// every position, one engine per route rendering every input in turn (c07_operands.go)
+	operands, err := c07BuildOperands()
+	if err != nil {
+		r.Violate(Violation{Key: "operand-build", What: "a template of the operand routes cannot be registered: " + err.Error(), Broken: "C07 (every position a filter can be applied)",
+			Replay: map[string]any{"kind": "operand"}})
+		operands = nil
+	}
+	cpBatches := 0
 	run := func(strs []string, kind string) error {
 		var want []string
 		if e.Model != nil {
@@ -552,6 +566,17 @@ func runC07(e *Env) error {
 		if kind != "byte-pair" && kind != "byte-triple" || e.Thorough() {
 			if nodes != nil && !r.Full() {
 				nodes.check(e, strs, want, kind)
+			}
+		}
+		// the operand routes: everything except the bulk (pairs, triples, 1 MiB; code points: the first batch in the quick tier)
+		if operands != nil && !r.Full() && kind != "byte-pair" && kind != "byte-triple" && kind != "1MiB" {
+			if kind == "code-points" {
+				cpBatches++
+			}
+			if kind != "code-points" || e.Thorough() || cpBatches == 1 {
+				if err := operands.check(e, c07Anys(strs), want, kind); err != nil {
+					return err
+				}
 			}
 		}
 		r.Hit("inputs:" + kind)
@@ -748,6 +773,12 @@ func runC07(e *Env) error {
 	// the same values as macro arguments interpolated into macro body text
 	if nodes != nil && !r.Full() {
 		nodes.checkValues(e, vals, strsOf, want, "value")
+	}
+	// the same values below the escaped expression
+	if operands != nil && !r.Full() {
+		if err := operands.check(e, vals, want, "value"); err != nil {
+			return err
+		}
 	}
 	// does the print tag escape on its own? (recorded, not required by C07)
 	if out, _ := c07Render(plain, "<"); out == "<" {
